@@ -21,7 +21,7 @@ from lib.hx import harness, pick, pickb, done, tier, PART, note, known, sample
 PROPERTY = "C10"
 LEVEL = "exploration"
 ASSUMPTIONS = [
-    "narrow claim: one hostile string from a menu of 25, planted in one of 16 places of a fixed two-module project, 5 docformats; nothing is claimed for other inputs",
+    "narrow claim: one hostile string from a menu of 25, planted in one of 19 places of a fixed two-module project, 5 docformats; nothing is claimed for other inputs",
     "reST raw / include directives are excluded by the statement and not used",
     "well-formedness is judged by expat (xml.etree) after removing characters that are illegal in XML 1.0",
 ]
@@ -45,7 +45,7 @@ DIRECTIVE_STRINGS = range(16, 25)
 DOC_PLACES = {"moddoc", "funcdoc", "classdoc", "attrdoc", "field_param", "field_return", "field_raises", "attr_href", "attr_alt", "xref_label"}
 NH = len(HOSTILE)
 FORMATS = ["epytext", "restructuredtext", "google", "numpy", "plaintext"]
-PLACES = ["moddoc", "funcdoc", "classdoc", "attrdoc", "field_param", "field_return", "field_raises", "const", "default", "annotation", "decorator", "base", "attr_href", "attr_alt", "deprecated", "xref_label"]
+PLACES = ["moddoc", "funcdoc", "classdoc", "attrdoc", "field_param", "field_return", "field_raises", "const", "default", "annotation", "decorator", "base", "attr_href", "attr_alt", "deprecated", "xref_label", "default_ifexp", "default_lambda_cmp", "default_listcomp"]
 NP = len(PLACES)
 _ILLEGAL = re.compile("[\x00-\x08\x0b\x0c\x0e-\x1f￾￿]")
 
@@ -86,6 +86,13 @@ def gen(fmt, place, s):
         # the LABEL of a cross-reference with an explicit target (rendered by pydoctor's own reference handling, not by docutils)
         fdoc += "\n\n" + ("See L{%s <deco>} now." % s if fmt == "epytext" else "See `%s <deco>` now." % s if fmt != "plaintext" else s)
     default = lit(s) if place == "default" else "1"
+    # defaults of expression kinds the value colorizer renders through its generic (source text) fallback
+    if place == "default_ifexp":
+        default = "('none' if deco else %s)" % lit(s)
+    elif place == "default_lambda_cmp":
+        default = "(lambda q: q == %s)" % lit(s)
+    elif place == "default_listcomp":
+        default = "[%s for _ in ()]" % lit(s)
     annotation = lit(s) if place == "annotation" else "int"
     deco = "@deco(%s)\n" % lit(s) if place == "decorator" else "@deco(1)\n"
     base = "Base[%s]" % lit(s) if place == "base" else "Base"
@@ -212,7 +219,7 @@ UNBLOCK = ["open", "os.mkdir", "os.symlink", "os.remove", "os.rmdir", "shutil.rm
     parts=lambda: [[p, f] for p in range(NP) for f in range(5)], timeout=(300, 1800), cls="E", tracing="concrete-after-choice", twin="first", unblock=UNBLOCK,
     code=["pydoctor.stanutils.flatten/html2stan (_RE_CONTROL)", "pydoctor.node2stan.HTMLTranslator", "pydoctor.templatewriter.writer.flattenToFile", "pydoctor.astbuilder._ValueFormatter", "pydoctor.epydoc.markup._pyval_repr",
           "pydoctor.templatewriter.pages.format_signature/format_decorators/format_class_signature", "pydoctor.epydoc2stan.FieldHandler", "twisted.web.template flattening (third party, exercised not modelled)"],
-    bounds={"quick": "25 hostile strings (element, attribute and event-handler injection with either quote, entity look-alikes, CDATA/comment delimiters, control characters, a reST raw directive smuggled behind each of 5 line separators, reST inline markup behind literal-ending backticks / leading white space) x 16 places (incl. the label of a cross-reference with an explicit target, hyperlink target and image alt text, which the translators write into attribute values, and the replacement string of twisted's @deprecated, which pydoctor pastes into reST) x 5 docformats (1 600 renders + harmless twins of equal length)", "thorough": "same"},
+    bounds={"quick": "25 hostile strings (element, attribute and event-handler injection with either quote, entity look-alikes, CDATA/comment delimiters, control characters, a reST raw directive smuggled behind each of 5 line separators, reST inline markup behind literal-ending backticks / leading white space) x 19 places (incl. parameter defaults that are conditional expressions, lambdas with comparisons and comprehensions - rendered through the colorizer's source-text fallback -, the label of a cross-reference with an explicit target, hyperlink target and image alt text, which the translators write into attribute values, and the replacement string of twisted's @deprecated, which pydoctor pastes into reST) x 5 docformats (1 900 renders + harmless twins of equal length)", "thorough": "same"},
     outside="strings outside the menu; several hostile strings at once; reST raw/include directives; names (identifiers cannot hold markup)",
 )
 def h_markup(hi: int) -> bool:
